@@ -12,7 +12,7 @@ from __future__ import annotations
 
 from .. import nf
 from ..model import AnalysisError
-from ..values import ExtObj, FuncV, Inst, Num, StrV, TupV, Vec
+from ..values import DictV, ExtObj, FuncV, Inst, Num, StrV, TupV, Vec
 from .common import FCP, FP, RES, interp, returns
 
 LEVEL = "other"
@@ -34,7 +34,8 @@ def check(ctx):
     if len(paths) != 1:
         raise AnalysisError(f"{q}: expected one path, found {len(paths)}")
     p = paths[0]
-    evs = [e for e in p.events if e.kind in ("construct", "int_call", "method_call") and e.func == q]
+    # constructions and method calls made by the objective, directly or through private helpers it calls (inlined)
+    evs = [e for e in p.events if e.kind == "construct" or (e.kind in ("int_call", "method_call") and e.data.get("recv") is not None)]
     cons_fp = [e for e in evs if e.kind == "construct" and e.data["cls"] == FP + "FlowProperties"]
     cons_r = [e for e in evs if e.kind == "construct" and e.data["cls"] == SPR]
     sims = [e for e in evs if e.kind == "int_call" and e.data["callee"].endswith(".simulate")]
@@ -90,19 +91,38 @@ def check(ctx):
         dec = {d: c for _k, c, d in fp_.decisions}
         filt, nowin, defparams = dec.get("filter_zero_prod_days"), dec.get("filter_window_size is None"), dec.get("params is None")
         tag = f"[filter={filt}, smoothing={not nowin}, default params={defparams}]"
-        mins = [e for e in fp_.events if e.kind == "ext_call" and e.data["callee"] == "lmfit.Minimizer"]
+        # lmfit.Minimizer(userfcn, params, fcn_args=, fcn_kws=).minimize(...)  or  lmfit.minimize(fcn, params, args=, kws=, ...)
+        mins = [e for e in fp_.events if e.kind == "ext_call" and e.data["callee"] in ("lmfit.Minimizer", "lmfit.minimize")]
         if len(mins) != 1:
             raise AnalysisError(f"{qf}: expected one Minimizer {tag}")
-        a = mins[0].data["args"]
+        a = dict(mins[0].data["args"])
+        if mins[0].data["callee"] == "lmfit.minimize":
+            a = {"userfcn": a.get("fcn"), "params": a.get("params"), "fcn_args": a.get("args"), "fcn_kws": a.get("kws")}
         where = f"{ff.file}:{mins[0].line}"
-        fa = a.get("fcn_args")
         uf = a.get("userfcn")
         oku = isinstance(uf, FuncV) and uf.info.qualname == q
         ctx.check(oku, "C18-c", qf + ":objective wired " + tag, where, "the minimiser minimises the library's _obj_function", signature="userfcn")
-        if not (isinstance(fa, TupV) and len(fa.items) == 4):
-            ctx.bad("C18-c", qf + ":fcn_args " + tag, where, "fcn_args has the four extra arguments of the objective", signature="fcn_args arity")
+        # bind positional and keyword extras to the objective's own parameter names (after `params`)
+        names = P.func(q).params[1:]
+        binding, extra = {}, []
+        fa, fk = a.get("fcn_args"), a.get("fcn_kws")
+        if isinstance(fa, TupV):
+            for nme, v in zip(names, fa.items):
+                binding[nme] = v
+            extra += ["positional"] * max(0, len(fa.items) - len(names))
+        elif fa is not None and type(fa).__name__ != "NoneV":
+            extra.append("fcn_args is not a tuple")
+        if isinstance(fk, DictV) and not fk.fallback:
+            for k, v in fk.items.items():
+                if k in binding or k not in names:
+                    extra.append(k)
+                binding[k] = v
+        elif fk is not None and type(fk).__name__ != "NoneV":
+            extra.append("fcn_kws is not a literal dict")
+        if set(binding) != set(names) or extra:
+            ctx.bad("C18-c", qf + ":fcn_args " + tag, where, "the minimiser hands the objective exactly its four extra arguments (days, production, pvt_table, pressure_fracface)", signature="fcn_args arity", bound=sorted(binding), problems=extra)
             continue
-        days, prod, tbl, pf = fa.items
+        days, prod, tbl, pf = (binding[n_] for n_ in ("days", "production", "pvt_table", "pressure_fracface"))
         # frame the data are taken from
         prod_nf = it2.to_nf(prod)
         pf_nf = it2.to_nf(pf)
@@ -125,7 +145,7 @@ def check(ctx):
             okw = isinstance(pf, ExtObj) and pf.qual == "scipy.ndimage.uniform_filter1d" and it2.to_nf(pf.args.get("input")) == raw_p and it2.to_nf(pf.args.get("size")) == nf.sym("filter_window_size") and set(pf.args) <= {"input", "size"}
             ctx.check(okw, "C18-d", qf + ":pressure smoothing " + tag, ff.where(), "the boxcar filter is applied to the Pressure column only, with size = filter_window_size", signature="smoothing", got=str(pf)[:200])
         okargs = isinstance(days, Vec) and days.gen == nf.sym("@J") and it2.to_nf(tbl) == nf.sym("pvt_table")
-        ctx.check(okargs, "C18-c", qf + ":fcn_args order " + tag, where, "fcn_args == (day index 0..n-1, cumulative production, pvt_table, frac-face pressures), the order of _obj_function's parameters", signature="fcn_args order", got=[str(x)[:60] for x in fa.items])
+        ctx.check(okargs, "C18-c", qf + ":fcn_args order " + tag, where, "fcn_args == (day index 0..n-1, cumulative production, pvt_table, frac-face pressures), the order of _obj_function's parameters", signature="fcn_args order", got={k: str(x)[:60] for k, x in binding.items()})
         if defparams:
             adds = {}
             for e in fp_.events:
